@@ -25,7 +25,7 @@ func c07Opts() (o specOpts, msg verif.Opts) {
 		o = specOpts{actionMode: 1, noNilBranches: true, branches: 1, patMode: 1, withGuards: true, withInvalid: true, fixedErr: true,
 			actKinds: []int{aSet, aFail, aNilExe}, grdKinds: kindsC07, pooled: true, small: true}
 		if verif.Tier() > 0 {
-			o.branches = 2
+			// (two branches with free error settings did not finish in 15 minutes)
 			o.fixedErr = false
 		}
 	}
